@@ -155,9 +155,13 @@ func GenSProgram(t *rapid.T, cfg SGenCfg) SProgram {
 					p.Ops = append(p.Ops, SOp{K: "write", Off: off, Len: rapid.Int64Range(1, min64(total-off, 24)).Draw(t, "len"), Seed: rapid.IntRange(1, 250).Draw(t, "seed")})
 				}
 			}
-			p.Ops = append(p.Ops, SOp{K: "reconnect", Node: n}, SOp{K: "add", Node: n},
+			rc := SOp{K: "reconnect", Node: n}
+			if rapid.IntRange(0, 2).Draw(t, "freshtarget") == 0 {
+				rc.Str = "fresh"
+			}
+			p.Ops = append(p.Ops, rc, SOp{K: "add", Node: n},
 				SOp{K: "rebuild", N: int64(rapid.IntRange(0, 3).Draw(t, "wpp")), Seed: rapid.IntRange(1, 5000).Draw(t, "seed"),
-					Str: rapid.SampledFrom([]string{"", "", "", "", "skipfile", "verifyfail"}).Draw(t, "interrupt"), On: rapid.IntRange(0, 3).Draw(t, "punch") == 0,
+					Str: rapid.SampledFrom([]string{"", "", "", "", "skipfile", "verifyfail", "nocopy", "nocopy"}).Draw(t, "interrupt"), On: rapid.Bool().Draw(t, "punch"),
 					Reps: rapid.IntRange(0, 1).Draw(t, "aligned")})
 		case "sysrebuild":
 			n := rapid.IntRange(0, nodes-1).Draw(t, "node")
@@ -167,6 +171,9 @@ func GenSProgram(t *rapid.T, cfg SGenCfg) SProgram {
 					off := rapid.Int64Range(0, total-1).Draw(t, "off")
 					p.Ops = append(p.Ops, SOp{K: "write", Off: off, Len: rapid.Int64Range(1, min64(total-off, 24)).Draw(t, "len"), Seed: rapid.IntRange(1, 250).Draw(t, "seed")})
 				}
+			}
+			if rapid.Bool().Draw(t, "freshtarget") {
+				p.Ops = append(p.Ops, SOp{K: "reconnect", Node: n, Str: "fresh"})
 			}
 			p.Ops = append(p.Ops, SOp{K: "sysrebuild", Node: n, N: int64(rapid.IntRange(0, 12).Draw(t, "fgwrites")), Seed: rapid.IntRange(1, 5000).Draw(t, "seed"),
 				Len: int64(rapid.IntRange(0, 400).Draw(t, "gapms")), Reps: rapid.IntRange(0, 1).Draw(t, "aligned")})
